@@ -253,6 +253,7 @@ func (ex *Exec) applyContract(st *State, site string, fn *ssa.Function, ct *Cont
 		ex.blocking = append(ex.blocking, blockingOp{Site: site, Kind: "call", Cancellable: ct.blocksCancellable, Note: "call to " + name + ", which may block", Chan: name})
 	}
 	pre := st.snapshotHeap()
+	prePC := append([]string(nil), st.pc...)
 	// havoc the frame
 	ex.havocModifies(st, ct, e, pre)
 	// result
@@ -275,6 +276,19 @@ func (ex *Exec) applyContract(st *State, site string, fn *ssa.Function, ct *Cont
 	}
 	ex.entryHeap = saveEntry
 	ex.usedContracts[fnKey(fn)] = true
+	if !st.dry && st.quantDepth == 0 && len(ct.ensures) > 0 {
+		// cover: assuming the callee's postcondition must not make a reachable state unreachable (at most two paths per site)
+		if ex.coverSeen == nil {
+			ex.coverSeen = map[string]int{}
+		}
+		ckey := name + "@" + site
+		if ex.coverSeen[ckey] < 2 {
+			ex.coverSeen[ckey]++
+			ob := ex.obl(fmt.Sprintf("%s/cover:%s", ex.rootName, ckey), "cover")
+			ob.VCs = append(ob.VCs, VC{pc: prePC, goal: "false", note: "state before the call"},
+				VC{pc: append([]string(nil), st.pc...), goal: "false", note: "state after assuming the contract of " + name})
+		}
+	}
 	k(st, res)
 }
 
@@ -322,12 +336,13 @@ func (ex *Exec) modTargets(st *State, ct *Contract, e *env) []modTarget {
 	}
 	if !ct.hasMod {
 		// no modifies clause: the callee may modify the whole program heap and the output/channel/counter ghosts
-		for _, g := range []string{"F!*", "M!*", "S!*", "B!*", "V!*", "G!out*", "G!wfailed", "G!writtenat", "G!ctr*", "G!sent*", "G!recv*", "G!closed", "G!cancelled", "G!g_*", "G!cb*"} {
+		for _, g := range []string{"F!*", "M!*", "S!*", "B!*", "V!*", "G!out*", "G!wfailed", "G!writtenat", "G!ctr*", "G!sent*", "G!recv*", "G!closed", "G!cancelled", "G!g_*", "G!cb*",
+			"G!rd*", "G!push*", "G!msgline", "G!lastrecv", "G!bytestr", "G!pushedat", "G!sentstamp", "G!reassstream", "G!filesize", "G!ctxerr", "G!tokens"} {
 			out = append(out, modTarget{region: g})
 		}
 	}
 	// allocation and write-once regions may always grow
-	out = append(out, modTarget{region: "A"}, modTarget{region: "I!*"}, modTarget{region: "G!dyn"}, modTarget{region: "G!wraps"}, modTarget{region: "G!clock"}, modTarget{region: "G!jsonof"}, modTarget{region: "G!split*"}, modTarget{region: "G!snap!*"})
+	out = append(out, modTarget{region: "A"}, modTarget{region: "I!*"}, modTarget{region: "G!dyn"}, modTarget{region: "G!wraps"}, modTarget{region: "G!clock"}, modTarget{region: "G!jsonof"}, modTarget{region: "G!split*"}, modTarget{region: "G!snap!*"}, modTarget{region: "G!bytestr"})
 	return out
 }
 
@@ -350,7 +365,7 @@ func (ex *Exec) evalMod(st *State, m *node, e *env) []modTarget {
 		case "heap":
 			return []modTarget{{region: "F!*"}, {region: "M!*"}, {region: "S!*"}, {region: "B!*"}, {region: "G!g_*"}, {region: "V!*"}}
 		case "chans":
-			return []modTarget{{region: "G!sent*"}, {region: "G!recv*"}, {region: "G!closed"}, {region: "G!cancelled"}}
+			return []modTarget{{region: "G!sent*"}, {region: "G!recv*"}, {region: "G!closed"}, {region: "G!cancelled"}, {region: "G!tokens"}}
 		}
 		if strings.HasPrefix(m.name, "g_") {
 			return []modTarget{{region: "G!" + m.name}}
@@ -550,6 +565,7 @@ func (ex *Exec) builtin(st *State, b *ssa.Builtin, args []Val, c *ssa.CallCommon
 		return Val{K: KUnit}
 	case "close":
 		ch := args[0].T
+		ex.assertAt(st, "close", map[string]Val{"ch": args[0]})
 		a := st.region("G!closed", arr("Int", "Bool"))
 		ex.record(st, ex.rootName+"/close-closed@"+shortFn(st.top().fn), "safety", and(not(eq(ch, "0")), not(sel(a, ch))), "close of nil or closed channel")
 		st.setRegion("G!closed", arr("Int", "Bool"), store(a, ch, "true"))
@@ -655,6 +671,8 @@ func (ex *Exec) appendSent(st *State, ch Val, v Val) {
 	st.setRegion("G!sentstamp", arr("Int", arr("Int", "Int")), store(a, ch.T, store(sel(a, ch.T), ln, st.region("G!out#len", "Int"))))
 	sl := st.region("G!sentlen", arr("Int", "Int"))
 	st.setRegion("G!sentlen", arr("Int", "Int"), store(sl, ch.T, "(+ "+ln+" 1)"))
+	tk := st.region("G!tokens", arr("Int", "Int"))
+	st.setRegion("G!tokens", arr("Int", "Int"), store(tk, ch.T, "(+ "+sel(tk, ch.T)+" 1)"))
 }
 
 func (ex *Exec) ghostField(st *State, ge ghostElem, name string) Val {
@@ -825,6 +843,12 @@ func (st *State) markCancelled(ch Val) {
 }
 
 func (ex *Exec) recvValue(st *State, ch Val, et types.Type) Val {
+	tk := st.region("G!tokens", arr("Int", "Int"))
+	if ex.trackedChans[ch.T] {
+		// every producer of this channel is known: a receive completes only if a message exists
+		st.assume("(>= " + sel(tk, ch.T) + " 1)")
+	}
+	st.setRegion("G!tokens", arr("Int", "Int"), store(tk, ch.T, "(- "+sel(tk, ch.T)+" 1)"))
 	if s, ok := et.Underlying().(*types.Struct); ok && s.NumFields() == 0 {
 		return zeroVal(et)
 	}
@@ -928,6 +952,10 @@ func (ex *Exec) goStmt(st *State, in *ssa.Go) {
 		return
 	}
 	ex.spawned = append(ex.spawned, fv.Fn)
+	if gct := ex.w.contractFor(fv.Fn); gct != nil && len(gct.sendsOnce) > 0 {
+		ex.spawnWithContract(st, in, fv, gct)
+		return
+	}
 	if len(fv.Fn.FreeVars) == 0 {
 		return
 	}
@@ -1125,4 +1153,59 @@ func (ex *Exec) callBySignature(st *State, site string, ct *Contract, sig *types
 	st.setRegion("G!cb#len", "Int", "(+ "+n+" 1)")
 	ex.syncPoint(st)
 	k(st, res)
+}
+
+// spawnWithContract: `go f()` where the closure f has a contract with `sends <ch> once`. The goroutine is not inlined
+// anywhere: the spawner sees it as one future message on ch (tokens(ch) grows by one). The closure's requires are
+// checked here, its entry ghost assignments take effect here, assert_at go:<name> clauses of the spawner are checked
+// here (before those ghost updates), and the closure body is verified against its contract as a unit of its own.
+func (ex *Exec) spawnWithContract(st *State, in *ssa.Go, fv Val, gct *Contract) {
+	site := callSite(in)
+	name := shortFn(fv.Fn)
+	vars := map[string]Val{}
+	for i, f := range fv.Fn.FreeVars {
+		b := fv.Binds[i]
+		if b.K == KCellPtr {
+			if v, ok := st.cells[b.Cell.ID]; ok {
+				vars[f.Name()] = v
+			}
+		} else {
+			vars[f.Name()] = b
+		}
+	}
+	args := in.Common().Args
+	for i, p := range fv.Fn.Params {
+		if i < len(args) {
+			vars[p.Name()] = st.get(args[i])
+		}
+	}
+	ex.assertAt(st, "go:"+name, vars)
+	e := &env{vars: vars}
+	for _, r := range gct.requires {
+		ex.record(st, fmt.Sprintf("%s/pre:go:%s@%s:%s", ex.rootName, name, site, r.label), "requires", ex.evalBool(st, r.expr, e), r.src)
+	}
+	for _, ga := range gct.ghostSet {
+		sort, ok := ex.w.ghostVars[ga.name]
+		if !ok {
+			panic(subsetErr{"contract-binding: undeclared ghost variable " + ga.name})
+		}
+		st.setRegion("G!"+ga.name, sort, ex.asTerm(ex.eval(st, ga.expr, e)))
+	}
+	for _, chn := range gct.sendsOnce {
+		cv, ok := vars[chn]
+		if !ok || cv.K != KTerm {
+			panic(subsetErr{"contract-binding: sends " + chn + ": not a captured channel variable of " + name})
+		}
+		tk := st.region("G!tokens", arr("Int", "Int"))
+		st.setRegion("G!tokens", arr("Int", "Int"), store(tk, cv.T, "(+ "+sel(tk, cv.T)+" 1)"))
+	}
+	ex.usedContracts[fnKey(fv.Fn)] = true
+	// captured cells the goroutine writes are shared from now on
+	_, written := goroutineSummary(fv)
+	if len(written) > 0 && st.shared == nil {
+		st.shared = map[int]bool{}
+	}
+	for _, w := range written {
+		st.shared[w] = true
+	}
 }
